@@ -339,7 +339,39 @@ pub fn both_keys(ctx: &mut Ctx) {
     let secp_alts: Vec<(&str, Option<Item>)> = vec![
         ("own", Some(Item::S(secp.pub_bytes()))),
         ("otherkey", Some(Item::S(secp2.pub_bytes()))),
-        ("invalid33", Some(Item::S(vec![0x02; 33]))),
+        ("valid33-of-nobody", Some(Item::S(vec![0x02; 33]))),
+        // the right length and tag, but no curve point: x off the curve (searched with RefPub), x >= p, x = 0
+        ("offcurve33", Some(Item::S({
+            let mut k = vec![0u8; 33];
+            k[0] = 2;
+            for x in 1..=255u8 {
+                k[32] = x;
+                if matches!(crate::refimpl::sig::pub_validity(Scheme::Secp, &k), crate::refimpl::sig::PubValidity::Invalid) {
+                    break;
+                }
+            }
+            k
+        }))),
+        ("x-ge-p-33", Some(Item::S({
+            let mut k = vec![0xffu8; 33];
+            k[0] = 3;
+            k
+        }))),
+        ("zero33", Some(Item::S({
+            let mut k = vec![0u8; 33];
+            k[0] = 2;
+            k
+        }))),
+        ("offcurve65", Some(Item::S({
+            let mut k = vec![0x11u8; 65];
+            k[0] = 4;
+            k
+        }))),
+        ("tag05-33", Some(Item::S({
+            let mut k = secp.pub_bytes();
+            k[0] = 5;
+            k
+        }))),
         ("short", Some(Item::S(vec![1, 2, 3, 4, 5]))),
         ("list", Some(Item::L(vec![]))),
         ("missing", None),
@@ -596,6 +628,7 @@ pub fn c10_decode_part(ctx: &mut Ctx) {
 pub fn c11_decode_part(ctx: &mut Ctx) {
     let q = ctx.quick();
     if !cfg!(miri) {
+        key_api_stress(ctx, if q { 5.0 } else { 40.0 });
         direct_key_api(ctx);
         concurrency_probe(ctx, true, false);
     }
@@ -844,6 +877,231 @@ pub fn direct_key_api(ctx: &mut Ctx) {
         if cfg!(feature = "ed") {
             go::<EdK>(ctx, Scheme::Ed, label & !(1 << 63), &content);
         }
+        #[cfg(feature = "ed")]
+        {
+            combined_direct(ctx, Scheme::Secp, label, &content);
+            combined_direct(ctx, Scheme::Ed, label & !(1 << 63), &content);
+        }
+    }
+}
+
+/// CombinedKey / CombinedPublicKey called DIRECTLY and through their `From` conversions: keys made with
+/// `CombinedKey::from(signing key)` and with the enum constructor behave alike, `public()`, `sign_v4`, `encode` and
+/// the public key's `encode`, `encode_uncompressed`, `enr_key`, `verify_v4` agree with the independent derivation.
+#[cfg(feature = "ed")]
+pub fn combined_direct(ctx: &mut Ctx, scheme: Scheme, label: u64, content: &[u8]) {
+    use crate::keys::*;
+    use crate::refimpl::sig;
+    use enr::{CombinedKey, CombinedPublicKey, EnrKey, EnrPublicKey};
+    let secret = secret_from(scheme, label);
+    let rk = RefKey::new(scheme, secret);
+    let pubb = rk.pub_bytes();
+    let replay = || json!({"kind": "note", "what": "combined-direct", "scheme": scheme.name(), "label": label, "content": crate::util::hex(content)});
+    ctx.count("evaluations");
+    ctx.count("combined-direct");
+    let r = crate::util::guard(|| {
+        let mut bad: Vec<String> = Vec::new();
+        let keys: Vec<(&str, CombinedKey)> = match scheme {
+            Scheme::Secp => {
+                let sk = k256::ecdsa::SigningKey::from_slice(&secret).expect("valid");
+                let mut b = secret;
+                vec![("from", CombinedKey::from(sk.clone())), ("variant", CombinedKey::Secp256k1(sk)), ("import", CombinedKey::secp256k1_from_bytes(&mut b).expect("valid"))]
+            }
+            _ => {
+                let sk = ed25519_dalek::SigningKey::from_bytes(&secret);
+                let mut b = secret;
+                vec![("from", CombinedKey::from(sk.clone())), ("variant", CombinedKey::Ed25519(sk)), ("import", CombinedKey::ed25519_from_bytes(&mut b).expect("valid"))]
+            }
+        };
+        let sg_ref = rk.sign(content);
+        for (how, key) in &keys {
+            let pk: CombinedPublicKey = key.public();
+            if pk.encode() != pubb {
+                bad.push(format!("{how}: public().encode() differs from the independent derivation"));
+            }
+            if pk.enr_key() != scheme.enr_key() {
+                bad.push(format!("{how}: enr_key() is not the scheme's key name"));
+            }
+            let want_unc: Vec<u8> = match scheme {
+                Scheme::Secp => sig::secp_normalise(&pubb).map(|(_, u)| u.to_vec()).unwrap_or_default(),
+                _ => pubb.clone(),
+            };
+            if pk.encode_uncompressed() != want_unc {
+                bad.push(format!("{how}: encode_uncompressed() is not x||y / the key"));
+            }
+            if key.encode() != secret {
+                bad.push(format!("{how}: encode() is not the secret"));
+            }
+            match key.sign_v4(content) {
+                Ok(sg) => {
+                    if !sig::verify(scheme, &pubb, content, &sg) {
+                        bad.push(format!("{how}: sign_v4 output does not verify independently ({} bytes)", sg.len()));
+                    }
+                }
+                Err(_) => bad.push(format!("{how}: sign_v4 failed")),
+            }
+            if !pk.verify_v4(content, &sg_ref) {
+                bad.push(format!("{how}: verify_v4 rejects an independently made valid signature"));
+            }
+            let mut other = content.to_vec();
+            other.push(0);
+            if pk.verify_v4(&other, &sg_ref) || pk.verify_v4(content, &sg_ref[1..]) || pk.verify_v4(content, &[]) {
+                bad.push(format!("{how}: verify_v4 accepts a signature it must refuse"));
+            }
+        }
+        // the public key converted from the back-end's verifying key
+        let cpk: CombinedPublicKey = match scheme {
+            Scheme::Secp => CombinedPublicKey::from(*k256::ecdsa::SigningKey::from_slice(&secret).expect("valid").verifying_key()),
+            _ => CombinedPublicKey::from(ed25519_dalek::SigningKey::from_bytes(&secret).verifying_key()),
+        };
+        if cpk.encode() != pubb || !cpk.verify_v4(content, &sg_ref) || cpk.enr_key() != scheme.enr_key() {
+            bad.push("CombinedPublicKey::from(verifying key) differs from the key".into());
+        }
+        // a key of the OTHER scheme never verifies this signature
+        let other_scheme = if scheme == Scheme::Secp { Scheme::Ed } else { Scheme::Secp };
+        let ok = CombK::make(other_scheme, &secret_from(other_scheme, label & 0xffff)).public();
+        if ok.verify_v4(content, &sg_ref) {
+            bad.push("a key of the other scheme verifies the signature".into());
+        }
+        // Builder::default() is Enr::builder()
+        let (a, b) = (enr::Builder::<CombinedKey>::default().udp4(9).build(&keys[0].1), enr::Enr::<CombinedKey>::builder().udp4(9).build(&keys[1].1));
+        match (a, b) {
+            (Ok(a), Ok(b)) => {
+                // (k256 signatures are randomised: the encodings may differ in the signature, nothing else may)
+                let pairs = |e: &enr::Enr<CombinedKey>| e.iter().map(|(k, v)| (k.to_vec(), v.to_vec())).collect::<Vec<_>>();
+                if pairs(&a) != pairs(&b) || a.seq() != b.seq() || !a.verify() || !b.verify() || a.node_id() != b.node_id() {
+                    bad.push("Builder::default() and Enr::builder() build different records".into());
+                }
+            }
+            _ => bad.push("a default builder failed".into()),
+        }
+        bad
+    });
+    match r {
+        Err(p) => ctx.violate("C03", "panic", &format!("combined-direct/{}", crate::util::panic_sig(&p)), || p.clone(), replay),
+        Ok(bad) => {
+            for b in bad {
+                let cls: String = b.chars().filter(|c| c.is_ascii_alphabetic() || *c == ' ' || *c == '_').take(50).collect::<String>().trim().replace(' ', "-");
+                for prop in ["C11", "C01", "C10", "C17"] {
+                    let relevant = match prop {
+                        "C01" => b.contains("verify_v4") || b.contains("sign_v4") || b.contains("other scheme"),
+                        "C10" => b.contains("uncompressed") || b.contains("public()"),
+                        "C17" => b.contains("encode() is not the secret") || b.contains("import"),
+                        _ => true,
+                    };
+                    if relevant {
+                        ctx.violate(prop, "key-trait-method-misbehaves", &format!("{cls}/combined"), || format!("combined: {b}"), replay);
+                    }
+                }
+            }
+        }
+    }
+}
+
+/// Stress: eight threads, each with ITS OWN key, hammer the key API (`public()`, every 16th round also `sign_v4` +
+/// independent verification, every 64th a build and an update) for a bounded time. A thread must only ever see
+/// its own key. (Process-wide state behind the key API — a "last key" cache — tears only under real parallelism,
+/// so this runs in two shards only, which then own eight cores' worth of threads.)
+pub fn key_api_stress(ctx: &mut Ctx, secs_per_kind: f64) {
+    use crate::hist::{apply_build, apply_op};
+    use crate::keys::*;
+    use crate::model::{BEntry, Op};
+    use crate::refimpl::sig;
+    use enr::{EnrKey, EnrPublicKey};
+    use std::sync::atomic::{AtomicBool, AtomicU64, Ordering};
+    if cfg!(miri) || ctx.shard >= 2 {
+        return;
+    }
+    const T: usize = 8;
+    fn go<KK: KeyKind>(ctx: &mut Ctx, scheme: Scheme, secs: f64)
+    where
+        KK::K: Send + Sync,
+    {
+        let stop = AtomicBool::new(false);
+        let rounds = AtomicU64::new(0);
+        let deadline = std::time::Instant::now() + std::time::Duration::from_secs_f64(secs);
+        let seed = ctx.seed;
+        let shard = ctx.shard;
+        let found: Vec<Option<String>> = std::thread::scope(|sc| {
+            let hs: Vec<_> = (0..T)
+                .map(|t| {
+                    let (stop, rounds) = (&stop, &rounds);
+                    sc.spawn(move || -> Option<String> {
+                        let label = 0x57_0000 + seed * 1000 + shard * 100 + t as u64;
+                        let secret = secret_from(scheme, label);
+                        let rk = RefKey::new(scheme, secret);
+                        let want = rk.pub_bytes();
+                        let key = KK::make(scheme, &secret);
+                        let mut i = 0u64;
+                        while !stop.load(Ordering::Relaxed) {
+                            i += 1;
+                            if i % 256 == 0 && std::time::Instant::now() > deadline {
+                                break;
+                            }
+                            let r = crate::util::guard(|| {
+                                let pk = key.public();
+                                if pk.encode().as_ref() != want.as_slice() {
+                                    return Some(format!("public() of thread {t}'s key returned {} instead of {} (round {i})", crate::util::hex(pk.encode().as_ref()), crate::util::hex(&want)));
+                                }
+                                if i % 16 == 0 {
+                                    let msg = i.to_le_bytes();
+                                    match key.sign_v4(&msg) {
+                                        Ok(sg) if sig::verify(scheme, &want, &msg, &sg) => {}
+                                        Ok(_) => return Some(format!("sign_v4 of thread {t}'s key does not verify under its public key (round {i})")),
+                                        Err(_) => return Some(format!("sign_v4 of thread {t}'s key failed (round {i})")),
+                                    }
+                                }
+                                if i % 64 == 0 {
+                                    match apply_build::<KK::K>(&[BEntry::Udp4(t as u16 + 1)], &key) {
+                                        Ok(mut e) => {
+                                            let upd = apply_op(&mut e, &Op::SetTcp4(9), &key, &key);
+                                            let nid = sig::node_id(scheme, &want);
+                                            if upd.is_err() || !e.verify() || Some(e.node_id().raw()) != nid || e.public_key().encode().as_ref() != want.as_slice() {
+                                                return Some(format!("a record built and updated with thread {t}'s key: update ok={}, verify={}, node id ok={} (round {i})", upd.is_ok(), e.verify(), Some(e.node_id().raw()) == nid));
+                                            }
+                                        }
+                                        Err(er) => return Some(format!("build with thread {t}'s key failed: {er:?} (round {i})")),
+                                    }
+                                }
+                                None
+                            });
+                            match r {
+                                Ok(None) => {}
+                                Ok(Some(msg)) => {
+                                    stop.store(true, Ordering::Relaxed);
+                                    rounds.fetch_add(i, Ordering::Relaxed);
+                                    return Some(msg);
+                                }
+                                Err(p) => {
+                                    stop.store(true, Ordering::Relaxed);
+                                    rounds.fetch_add(i, Ordering::Relaxed);
+                                    return Some(format!("panic: {p}"));
+                                }
+                            }
+                        }
+                        rounds.fetch_add(i, Ordering::Relaxed);
+                        None
+                    })
+                })
+                .collect();
+            hs.into_iter().map(|h| h.join().unwrap_or(None)).collect()
+        });
+        ctx.add("evaluations", rounds.load(Ordering::Relaxed));
+        ctx.add("key-api-stress-rounds", rounds.load(Ordering::Relaxed));
+        ctx.count(&format!("key-api-stress.{}", KK::name()));
+        for msg in found.into_iter().flatten() {
+            for prop in ["C11", "C05", "C10", "C01"] {
+                ctx.violate(prop, "key-api-differs-between-threads", &KK::name(), || format!("{}: {T} threads with distinct keys: {msg}", KK::name()), || json!({"kind": "note", "what": "key-api-stress", "kt": KK::name(), "threads": T}));
+            }
+        }
+    }
+    go::<K256K>(ctx, Scheme::Secp, secs_per_kind);
+    #[cfg(feature = "libsecp")]
+    go::<LibsecpK>(ctx, Scheme::Secp, secs_per_kind);
+    if cfg!(feature = "ed") {
+        go::<EdK>(ctx, Scheme::Ed, secs_per_kind);
+        go::<CombK>(ctx, Scheme::Secp, secs_per_kind);
+        go::<CombK>(ctx, Scheme::Ed, secs_per_kind);
     }
 }
 
@@ -853,6 +1111,12 @@ pub fn direct_key_api(ctx: &mut Ctx) {
 /// of the same (bytes, key type); each concurrent update script must leave, step by step, the records the
 /// sequential run of the same script left (sequence number, pairs, node id, verify, result kind).
 pub fn concurrency_probe(ctx: &mut Ctx, decodes: bool, scripts: bool) {
+    concurrency_probe_opts(ctx, decodes, scripts, false)
+}
+
+/// `texts`: the threads also PARSE (FromStr and JSON): the canonical text of each valid input, the same text with
+/// bytes appended after the record, with padding, and without the prefix.
+pub fn concurrency_probe_opts(ctx: &mut Ctx, decodes: bool, scripts: bool, texts: bool) {
     use crate::hist::{apply_build, apply_op};
     use crate::keys::*;
     use crate::model::{BEntry, Signer, Val};
@@ -930,17 +1194,56 @@ pub fn concurrency_probe(ctx: &mut Ctx, decodes: bool, scripts: bool) {
             }
         }
         let pairs: Vec<(usize, KT)> = (0..inputs.len()).flat_map(|i| kts.iter().map(move |k| (i, *k))).collect();
+        // texts: (class, string, must-be-accepted-by-a-reader-of-the-scheme / must be rejected / as the bytes)
+        let mut tx: Vec<(&'static str, String, KT, Option<bool>)> = Vec::new();
+        if texts {
+            for (cls, b) in inputs.iter().filter(|(c, _)| *c == "valid") {
+                let _ = cls;
+                let t = format!("enr:{}", crate::refimpl::b64::encode(b));
+                let mut longer = b.clone();
+                longer.extend_from_slice(&[0x80, 0x01, 0x02]);
+                for kt in &kts {
+                    let reads = matches!(crate::refimpl::decode::ref_decode(b, *kt), crate::refimpl::decode::RefOut::Accept(_));
+                    tx.push(("canonical", t.clone(), *kt, Some(reads)));
+                    tx.push(("no-prefix", t[4..].to_string(), *kt, Some(reads)));
+                    tx.push(("trailing-bytes", format!("enr:{}", crate::refimpl::b64::encode(&longer)), *kt, Some(false)));
+                    tx.push(("padded", format!("{t}="), *kt, Some(false)));
+                    tx.push(("json", serde_json::to_string(&t).unwrap(), *kt, Some(reads)));
+                    tx.push(("json-trailing-bytes", serde_json::to_string(&format!("enr:{}", crate::refimpl::b64::encode(&longer))).unwrap(), *kt, Some(false)));
+                }
+            }
+        }
+        let parse_one = |cls: &str, t: &str, kt: KT| -> (bool, Option<Vec<u8>>, bool) {
+            let o = if cls.starts_with("json") { dec::json_kt(kt, t) } else { dec::parse_kt(kt, t) };
+            (o.res.is_ok(), o.res.as_ref().ok().map(|x| x.enc.clone()), o.panic.is_some())
+        };
+        let seq_tx: Vec<(bool, Option<Vec<u8>>, bool)> = tx.iter().map(|(c, t, kt, _)| parse_one(c, t, *kt)).collect();
         let hs: Vec<(KT, Scheme, crate::hist::History)> = if scripts { ks.iter().map(|(kt, s)| (*kt, *s, random_history(&mut r, *s, 8))).filter(|(_, _, h)| h.steps.iter().all(|s| s.signer != Signer::Alt)).collect() } else { Vec::new() };
         // ---- sequential reference
         ctx.trace_case(|| json!({"kind": "concurrency-round", "round": round, "inputs": inputs.iter().map(|(_, b)| crate::util::hex(b)).collect::<Vec<_>>()}));
         let seq_dec: Vec<Summary> = pairs.iter().map(|(i, kt)| summarise(&dec::decode_kt(*kt, &inputs[*i].1))).collect();
         let seq_scr: Vec<Vec<String>> = hs.iter().map(|(kt, s, h)| script(*kt, *s, h)).collect();
         // ---- the same work on T threads at once, each in another order
-        let results: Vec<(Vec<(usize, dec::DecOut)>, Vec<(usize, Vec<String>)>)> = std::thread::scope(|sc| {
+        #[allow(clippy::type_complexity)]
+        let results: Vec<(Vec<(usize, dec::DecOut)>, Vec<(usize, Vec<String>)>, Vec<(usize, (bool, Option<Vec<u8>>, bool))>)> = std::thread::scope(|sc| {
             let handles: Vec<_> = (0..T)
                 .map(|t| {
-                    let (pairs, inputs, hs) = (&pairs, &inputs, &hs);
+                    let (pairs, inputs, hs, tx, parse_one) = (&pairs, &inputs, &hs, &tx, &parse_one);
                     sc.spawn(move || {
+                        let mut txo = Vec::new();
+                        let mut torder: Vec<usize> = (0..tx.len()).collect();
+                        if !torder.is_empty() {
+                            torder.rotate_left(t * tx.len() / T);
+                        }
+                        // several passes over the texts: a contended entry point shows only while another thread is in it
+                        for pass in 0..3 {
+                            for &ti in &torder {
+                                let r = parse_one(tx[ti].0, &tx[ti].1, tx[ti].2);
+                                if pass == 0 || r.0 != (tx[ti].3 == Some(true)) {
+                                    txo.push((ti, r));
+                                }
+                            }
+                        }
                         let mut order: Vec<usize> = (0..pairs.len()).collect();
                         if !order.is_empty() {
                             let by = t * pairs.len() / T;
@@ -969,7 +1272,7 @@ pub fn concurrency_probe(ctx: &mut Ctx, decodes: bool, scripts: bool) {
                         for h in hi {
                             s.push((h, script(hs[h].0, hs[h].1, &hs[h].2)));
                         }
-                        (d, s)
+                        (d, s, txo)
                     })
                 })
                 .collect();
@@ -977,7 +1280,30 @@ pub fn concurrency_probe(ctx: &mut Ctx, decodes: bool, scripts: bool) {
         });
         ctx.trace_end();
         // ---- judge
-        for (t, (d, s)) in results.iter().enumerate() {
+        for (t, (_, _, txo)) in results.iter().enumerate() {
+            for (ti, got) in txo {
+                let (cls, text, kt, want) = (&tx[*ti].0, &tx[*ti].1, tx[*ti].2, tx[*ti].3);
+                ctx.count("evaluations");
+                ctx.count("concurrent-parses");
+                let replay = || json!({"kind": "text", "entry": if cls.starts_with("json") { "json" } else { "parse" }, "kt": kt.name(), "text": text, "note": "concurrent threads"});
+                if got.2 {
+                    ctx.violate("C03", "panic", "concurrent-parse", || format!("{}: parsing a {cls} text panicked on thread {t}", kt.name()), replay);
+                }
+                if let Some(w) = want {
+                    if got.0 != w {
+                        ctx.violate("C12", if w { "canonical-text-rejected" } else { "non-canonical-text-accepted" }, &format!("concurrent/{cls}/{}", kt.name()), || {
+                            format!("{}: a {cls} text was {} on thread {t} of {T} concurrent ones", kt.name(), if got.0 { "accepted" } else { "rejected" })
+                        }, replay);
+                    }
+                }
+                if *got != seq_tx[*ti] {
+                    ctx.violate("C12", "outcome-differs-between-threads", &format!("{cls}/{}", kt.name()), || {
+                        format!("{}: parsing the same {cls} text gave accepted={} on thread {t} of {T} concurrent ones and accepted={} sequentially", kt.name(), got.0, seq_tx[*ti].0)
+                    }, replay);
+                }
+            }
+        }
+        for (t, (d, s, _)) in results.iter().enumerate() {
             for (p, out) in d {
                 let (i, kt) = pairs[*p];
                 let (class, bytes) = (&inputs[i].0, &inputs[i].1);
